@@ -69,6 +69,7 @@ def source(sfx, p, with_inner=True, variant=0):
           "    ann: Annotated[List[int], Field(max_length=9)] = [3]",
           "    exd: int = Field(default=0, on_error='exclude', dependencies=['dep'])", "    dep: int = Field(required=False)",
           "    tpl: dict = Field(default_factory=fac_template)",
+          "    cst: list = Field(const=[1, 2], required=False)",
           f"    inner: Optional['Inner{S}'] = None", f"    inners: List['Inner{S}'] = Field(default_factory=list)",
           "    leaf: Optional[Leaf] = None", "    def __validate__(self):", "        hook_point('validate')", ""]
     L += [f"class D{S}(DataClass):", f"    __options__ = {opt}", "    n: int", "    lst: List[int] = [1]",
@@ -126,6 +127,9 @@ INIT_TEMPLATES = [
     {"n": 1, "ann": [1, "2"]},
     {"n": 1, "lst": [], "dct": {"g": []}, "ann": []},       # empty containers that already have the declared type
     {"n": 1, "lst": [], "inners": [], "tup": [[]]},
+    {"n": 1, "cst": [1, 2]},                                # a constant that is a mutable value
+    {"n": 2, "cst": [1, 2], "lst": [3]},
+    {"n": 1, "cst": [1, 2, 99]},                            # not the constant
 ]
 D_TEMPLATES = [{"n": 1, "lst": [], "dct": {"g": []}}, {"n": 1}, {"n": "2", "lst": ["3"]}, {"n": 1, "dct": {"q": [1]}}, {"n": "zz"}, {"n": 1, "raw": [[1]]},
                {"n": 1, "leaf": {"$r": 0}}, {}, {"n": 1, "exd": "zz"}, {"n": 1, "exd": 5}, {"n": 1, "exd": 6, "dep": 2}]
